@@ -64,6 +64,8 @@ pub struct Res {
     pub conv: Value,
     /// kinds of the layers whose to_header() / to_packet() conversion does not hold the values the slice accessors report (C04)
     pub tohdr: Vec<String>,
+    /// conversions of the returned error that changed what it says
+    pub econv: Vec<String>,
 }
 fn th(r: &mut Res, k: &str, same: bool) {
     if !same && !r.tohdr.iter().any(|x| x == k) {
@@ -92,13 +94,13 @@ fn vlan_hdr_ids(v: &Option<VlanHeader>) -> Option<(i64, i64, i64)> {
 }
 impl Res {
     pub fn new() -> Res {
-        Res { v: "ok", layers: vec![], pay: no_pay(), err: ErrP::none(), conv: no_conv(), tohdr: vec![] }
+        Res { v: "ok", layers: vec![], pay: no_pay(), err: ErrP::none(), conv: no_conv(), tohdr: vec![], econv: vec![] }
     }
     pub fn err(e: ErrP) -> Res {
-        Res { v: "err", layers: vec![], pay: no_pay(), err: e, conv: no_conv(), tohdr: vec![] }
+        Res { v: "err", layers: vec![], pay: no_pay(), err: e, conv: no_conv(), tohdr: vec![], econv: vec![] }
     }
     pub fn json(&self, ctx: &Ctx) -> Value {
-        json!({"v": self.v, "layers": self.layers, "pay": self.pay, "err": self.err.json(), "oob": ctx.oob.get(), "conv": self.conv, "tohdr": self.tohdr})
+        json!({"v": self.v, "layers": self.layers, "pay": self.pay, "err": self.err.json(), "oob": ctx.oob.get(), "conv": self.conv, "tohdr": self.tohdr, "econv": self.econv})
     }
 }
 
